@@ -394,6 +394,33 @@ pub fn run_c13(seed: u64, cases: u64, threads: usize) -> (Outcome, String) {
 // ---------------------------------------------------------------------------------------------
 // C19
 
+/// Names the host resolver records for a fixed list of types whose printing involves sets of bounds,
+/// nested generics and paths (type naming is part of what a definition history produces).
+pub fn recorded_names() -> String {
+    use truc::record::type_resolver::TypeResolver;
+    let r = HostTypeResolver;
+    let mut s = String::new();
+    macro_rules! name {
+        ($($t:ty),* $(,)?) => {$(
+            s.push_str(&catch_unwind(AssertUnwindSafe(|| r.type_info::<$t>().name)).unwrap_or_else(|_| "<panic>".to_string()));
+            s.push('\n');
+        )*};
+    }
+    name!(
+        Box<dyn std::error::Error + Send + Sync>,
+        Box<dyn Fn(u32) -> u32 + Send + Sync>,
+        Option<Box<dyn std::fmt::Debug + Send>>,
+        std::sync::Arc<dyn std::any::Any + Send + Sync>,
+        fn(u32, String) -> Option<Vec<u8>>,
+        Result<Vec<Option<Box<str>>>, (u8, String)>,
+        [Option<(String, Vec<Box<[u16]>>)>; 3],
+        std::collections::BTreeMap<String, Vec<u64>>,
+        *const u8,
+        &'static str,
+    );
+    s
+}
+
 /// Digest of everything observable: offsets, Display, generated code.
 pub fn digest_of(h: &History, sel: usize) -> Option<String> {
     let (trace, def) = run_native(h);
@@ -405,6 +432,7 @@ pub fn digest_of(h: &History, sel: usize) -> Option<String> {
         }
         s.push_str(&def.to_string());
         s.push_str(&generate(&def, &config_for(sel)));
+        s.push_str(&recorded_names());
         s
     }))
     .ok()?;
@@ -464,6 +492,9 @@ pub fn check_c19(h: &History) -> Result<CaseInfo, Failure> {
                 return Err(Failure::new("code-differs", format!("generated code differs between two replays (fragment selection {})", sel)));
             }
         }
+    }
+    if recorded_names() != recorded_names() {
+        return Err(Failure::new("names-differ", "the type names recorded for a fixed list of types differ between two calls"));
     }
     let (_c, mut info) = base_info(&trace);
     info.counters.push(("generated_bytes_compared", bytes));
